@@ -774,6 +774,46 @@ def gen_C19(rng, n=2500):
     return "\n".join(L) + "\n"
 
 
+def gen_C19_edges(rng, n=600):
+    """edge values: doubles handed to an EV* forest (rounded to single precision:
+    underflow to zero, denormals, the float range, exact values), integers and
+    +infinity handed to an EV+ forest"""
+    import struct
+    L = ["init", "domain D 2",
+         "forest T D rel real evt %s" % rng.choice(["ir", "fr", "qr"]),
+         "forest P D set int evp %s" % rng.choice(["fr", "qr"])]
+
+    def dbl(d):
+        try:
+            f = struct.unpack("<I", struct.pack("<f", d))[0]
+        except OverflowError:
+            return
+        L.append("edgeval T dbl %016x %08x" % (struct.unpack("<Q", struct.pack("<d", d))[0], f))
+
+    corner = [0.0, -0.0, 1.0, -1.0, 2.0, 0.5, 1e-50, -1e-50, 1e-46, 7e-46, 8e-46, 1.4e-45, 1e-45, 2e-45,
+              1.17549435e-38, 1.1754942e-38, 1e-39, 3.4028234e38, 1e-300, 5e-324, 1.0000001, 0.1, 1 / 3.0]
+    for d in corner:
+        dbl(d)
+        dbl(-d)
+    for _ in range(n):
+        r = rng.random()
+        if r < 0.35:
+            # around the single-precision underflow threshold 2^-150 .. 2^-126
+            dbl(rng.choice([1, -1]) * rng.uniform(0.5, 2.0) * 2.0 ** rng.randint(-160, -120))
+        elif r < 0.5:
+            dbl(rng.choice([1, -1]) * rng.uniform(0.5, 2.0) * 2.0 ** rng.randint(-1074, -161))
+        elif r < 0.8:
+            dbl(rng.choice([1, -1]) * rng.uniform(0.5, 2.0) * 2.0 ** rng.randint(-119, 120))
+        else:
+            dbl(struct.unpack("<f", struct.pack("<I", rng.getrandbits(31) % 0x7f800000))[0])
+    for v in [0, 1, -1, 5, -7, (1 << 31) - 1, -(1 << 31), (1 << 40), -(1 << 40), (1 << 61)]:
+        L.append("edgeval P int %d" % v)
+    for _ in range(n // 6):
+        L.append("edgeval P int %d" % rng.randint(-(1 << 50), 1 << 50))
+    L.append("edgeval P inf")
+    return "\n".join(L) + "\n"
+
+
 def gen_C18(rng, nops=400):
     """request/recycle histories against bare memory managers"""
     L = ["init"]
@@ -1193,7 +1233,7 @@ def gen_C20(rng):
     """saturation with a relation given as separate events"""
     ctx = Ctx(rng)
     ctx.emit("init " + rand_ctopts(rng))
-    d = rand_domain(rng, "D", False, 40, 3)
+    d = rand_domain(rng, "D", False, 48, 4)
     ctx.emit(d.decl())
     fs = Forest("S", d, False, "bool", "mt", rng.choice(RULES_SET), rand_opts(rng))
     # pregen relations live in an identity-reduced forest (library default for relations)
@@ -1203,11 +1243,14 @@ def gen_C20(rng):
     for rnd in range(rng.randint(1, 3)):
         s = "s%d" % rnd
         parts = ["coll", s, "S", "max", "0"]
+        # initial sets from single states to cubes that skip several adjacent levels
         for _ in range(rng.choice([1, 1, 2])):
-            parts += [";"] + rand_pos_set(rng, d, rng.choice([0, 0, 0.3])) + ["=>", "1"]
+            parts += [";"] + rand_pos_set(rng, d, rng.choice([0, 0, 0.3, 0.7, 1.0])) + ["=>", "1"]
         ctx.emit(" ".join(parts))
         nev = rng.randint(1, 5)
         evs = []
+        # sometimes no event is rooted above a random level (levels without events)
+        maxvar = rng.randint(1, len(d.sizes)) if rng.random() < 0.5 else len(d.sizes)
         for e in range(nev):
             name = "e%d_%d" % (rnd, e)
             # events touch few variables: the others unchanged (x, =); sometimes the
@@ -1218,7 +1261,8 @@ def gen_C20(rng):
                 touched = False
                 for vi, sz in enumerate(d.sizes):
                     r = rng.random()
-                    if r < 0.5:
+                    # positions are listed variable 1 (bottom) first
+                    if r < 0.5 or (vi + 1) > maxvar:
                         pos += ["x", "="]
                     elif r < 0.6:
                         v = str(rng.randrange(sz))
@@ -1243,6 +1287,70 @@ def gen_C20(rng):
             split = rng.choice(["only", "sub", "suball", "mono"])
             n = ctx.fresh("r")
             ctx.emit("satpre %s S %s %s %s %s" % (n, mode, split, s, " ".join(evs)))
+            res.append(n)
+        m = ctx.fresh("m")
+        ctx.emit("apply %s S %s %s %s" % (m, rng.choice(["reach_nofs", "reach_fs", "reach_sat"]), s, u))
+        for x in res:
+            ctx.emit("eq %s %s" % (x, m))
+    return ctx.text()
+
+
+def gen_C20_skip(rng):
+    """saturation by events when the initial set's diagram skips several
+    adjacent levels and some levels have no event of their own: cubes whose top
+    variables are unconstrained, events rooted at intermediate levels"""
+    ctx = Ctx(rng)
+    ctx.emit("init " + rand_ctopts(rng))
+    while True:
+        k = rng.choice([3, 3, 4])
+        sizes = [rng.choice([2, 2, 3]) for _ in range(k)]
+        d = Domain("D", sizes)
+        if d.npoints(False) <= 48:
+            break
+    ctx.emit(d.decl())
+    fs = Forest("S", d, False, "bool", "mt", rng.choice(["fr", "fr", "fr", "qr"]), rand_opts(rng))
+    fm = Forest("M", d, True, "bool", "mt", "ir", rand_opts(rng))
+    ctx.emit(fs.decl())
+    ctx.emit(fm.decl())
+    for rnd in range(rng.randint(1, 2)):
+        s = "s%d" % rnd
+        # variables above `low` are unconstrained in the initial set
+        low = rng.randint(1, k - 2)
+        parts = ["coll", s, "S", "max", "0"]
+        for _ in range(rng.choice([1, 1, 2])):
+            pos = [str(rng.randrange(sizes[v])) if v < low else "x" for v in range(k)]
+            parts += [";"] + pos + ["=>", "1"]
+        ctx.emit(" ".join(parts))
+        # events rooted at chosen levels only; some level between has none
+        roots = sorted(rng.sample(range(1, k + 1), rng.randint(1, k - 1)))
+        evs = []
+        for e, top in enumerate(roots * rng.choice([1, 1, 2])):
+            name = "e%d_%d" % (rnd, e)
+            parts = ["coll", name, "M", "max", "0"]
+            for _ in range(rng.choice([1, 2])):
+                pos = []
+                for v in range(k):
+                    if v + 1 > top:
+                        pos += ["x", "="]
+                    elif v + 1 == top or rng.random() < 0.5:
+                        a = rng.randrange(sizes[v])
+                        b = rng.choice([x for x in range(sizes[v]) if x != a])
+                        pos += [str(a), str(b)]
+                    else:
+                        pos += rng.choice([["x", "="], [str(rng.randrange(sizes[v])), "="]])
+                parts += [";"] + pos + ["=>", "1"]
+            ctx.emit(" ".join(parts))
+            evs.append(name)
+        u = evs[0]
+        for i, e in enumerate(evs[1:]):
+            n = "u%d_%d" % (rnd, i)
+            ctx.emit("apply %s M union %s %s" % (n, u, e))
+            u = n
+        res = []
+        for _ in range(rng.randint(1, 3)):
+            n = ctx.fresh("r")
+            ctx.emit("satpre %s S %s %s %s %s" % (n, rng.choice(["events", "levels"]),
+                                                  rng.choice(["only", "sub", "suball", "mono"]), s, " ".join(evs)))
             res.append(n)
         m = ctx.fresh("m")
         ctx.emit("apply %s S %s %s %s" % (m, rng.choice(["reach_nofs", "reach_fs", "reach_sat"]), s, u))
@@ -1519,6 +1627,7 @@ def gen_C17(rng):
     """create and destroy domains, forests and edges in random orders, with
     operations spanning destroyed and surviving forests; repeated init/cleanup"""
     ctx = Ctx(rng)
+    old = []                # edges that outlived a cleanup (detached for ever)
     for cycle in range(rng.choice([1, 2, 3])):
         ctx.emit("init " + rand_ctopts(rng))
         doms = {}
@@ -1550,6 +1659,18 @@ def gen_C17(rng):
                 e = ctx.fresh("e")
                 gen_coll(ctx, forests[fname], e, nmax=4)
                 edges[e] = fname
+                if old and rng.random() < 0.6:
+                    # an edge from an earlier initialisation: forest identifiers start again at
+                    # 1, but the edge must stay inert, be rejected as an operand, and be harmless
+                    # to drop
+                    o = rng.choice(old)
+                    ctx.emit("attached %s" % o)
+                    ctx.emit("apply %s %s union %s %s" % (ctx.fresh("x"), fname, o, e))
+                    if rng.random() < 0.5:
+                        ctx.emit("release %s" % o)
+                        old.remove(o)
+                    ctx.emit("show %s" % e)
+                    ctx.emit("audit %s" % fname)
             elif r < 0.7:
                 # operation among forests of one domain (fills the compute tables)
                 es = [e for e in edges if edges[e] in forests]
@@ -1598,7 +1719,14 @@ def gen_C17(rng):
                 ctx.emit("show %s" % e)
         for f in forests:
             ctx.emit("audit %s" % f)
-        ctx.emit("cleanup")
+        if rng.random() < 0.6:
+            ctx.emit("cleanup keep")
+            old += list(edges)
+            for e in old:
+                ctx.emit("attached %s" % e)
+        else:
+            ctx.emit("cleanup")
+            old = []
     return ctx.text()
 
 
